@@ -330,6 +330,12 @@ func (c *codecV2) EncodeRequest(req *tikvrpc.Request) (*tikvrpc.Request, error) 
 	case tikvrpc.CmdSplitRegion:
 		r := *req.SplitRegion()
 		r.SplitKeys = c.encodeKeys(r.SplitKeys)
+		// The deprecated singular field is only set by old callers; leave it empty otherwise.
+		//nolint:staticcheck
+		if len(r.SplitKey) > 0 {
+			//nolint:staticcheck
+			r.SplitKey = c.EncodeKey(r.SplitKey)
+		}
 		req.Req = &r
 	}
 
